@@ -2,6 +2,7 @@
 package seq
 
 import (
+	"fmt"
 	"strconv"
 	"strings"
 	"time"
@@ -27,7 +28,9 @@ type Profile struct {
 	GcOn         bool
 	RenewW       int // weight of renews (default 10)
 	NameCount    int // restrict the name alphabet to its first NameCount entries (0 = all)
+	WideNames    bool // add three names drawn per history from a family of 2000 (spreads over every shard of every count)
 	LeaseFocus   bool
+	Disc         int // weight of session ends (default 4)
 }
 
 var DefaultProfile = Profile{Ops: 40, Restart: 3, Gc: 3, Ipc: 0, Blocking: 10, Invalid: 15, Foreign: 30}
@@ -54,6 +57,7 @@ type Gen struct {
 	deadline []int64 // instants worth stepping to
 	sizeOf   map[string]*int32
 	reqInfo  map[int]holdInfo
+	wide     []string // this history's names from the wide family
 	reqLt    map[int]*int32
 }
 
@@ -63,7 +67,7 @@ func NewGen(r *common.Rng, p Profile) *Gen {
 		g.cfg = *p.FixedCfg
 	} else {
 		g.cfg = impl.Cfg{
-			Shards:  common.Pick(r, []uint32{0, 1, 2, 16, 1000}),
+			Shards:  common.Pick(r, []uint32{0, 1, 2, 3, 7, 10, 16, 100, 1000}),
 			GcInt:   1000 * time.Hour,
 			GcIdle:  common.Pick(r, []time.Duration{0, 1, time.Second, 5 * time.Minute}),
 			Dlt:     common.Pick(r, []time.Duration{2 * time.Second, 10 * time.Minute, time.Second, 3 * time.Second}),
@@ -117,6 +121,16 @@ func (g *Gen) lt() *int32 {
 func (g *Gen) name() string {
 	if g.r.Chance(g.p.Invalid / 3) {
 		return ""
+	}
+	if g.p.WideNames {
+		if g.wide == nil {
+			for i := 0; i < 3; i++ {
+				g.wide = append(g.wide, fmt.Sprintf("lock-%d", g.r.Intn(2000)))
+			}
+		}
+		if g.r.Chance(45) {
+			return common.Pick(g.r, g.wide)
+		}
 	}
 	if g.p.NameCount > 0 {
 		return names[g.r.Intn(g.p.NameCount)]
@@ -189,7 +203,7 @@ func (g *Gen) Next() impl.Op {
 		w int
 		k string
 	}
-	cs := []choice{{30, "trylock"}, {g.p.Blocking, "lock"}, {22, "unlock"}, {max(g.p.RenewW, 10), "renew"}, {16, "adv"}, {4, "disconnect"},
+	cs := []choice{{30, "trylock"}, {g.p.Blocking, "lock"}, {22, "unlock"}, {max(g.p.RenewW, 10), "renew"}, {16, "adv"}, {max(g.p.Disc, 4), "disconnect"},
 		{g.p.Restart, "restart"}, {g.p.Gc, "gc"}, {g.p.Ipc, "ipcunlock"}, {g.p.NoSessionReq, "nosession"}}
 	if len(g.pending) > 0 {
 		cs = append(cs, choice{3, "cancel"})
